@@ -108,7 +108,7 @@ static int compare(float **p,long n,int lk,long pos,int hs){
 int main(int argc,char **argv){
   FILE *f=fopen(argv[1],"r"); char *line;
   if(!f)return 2;
-  signal(SIGALRM,on_alarm);
+  vc_watch_init(on_alarm);
   while((line=vc_getline(f))){
     char id[64]; int seekable,hs; long maxread,seed; char *hex;
     char *t=strtok(line," "); if(!t||strcmp(t,"case")){ free(line); continue; }
@@ -119,7 +119,7 @@ int main(int argc,char **argv){
     reference_decode(file,n,0,1);
     printf("ref %d",nref); for(int i=0;i<nref;i++)printf(" %ld:%d:%ld:%ld:%ld:%ld",ref[i].n,ref[i].ch,ref[i].rate,ref[i].serial,ref[i].bs0,ref[i].bs1); printf("\n");
     if(hs){ ref_free(); reference_decode(file,n,1,0); }
-    alarm(60);
+    vc_watch(60);
     memsrc ms={0}; ms.b=file; ms.n=n; ms.seekable=seekable; ms.maxread=maxread;
     OggVorbis_File vf; ov_callbacks cb={ms_read,seekable?ms_seek:NULL,ms_close,seekable?ms_tell:NULL};
     int orc=ov_open_callbacks(&ms,&vf,NULL,0,cb);
@@ -191,7 +191,7 @@ int main(int argc,char **argv){
     printf("holes %ld closes_before_clear %ld\n",holes,ms.closes);
     ov_clear(&vf);
     printf("closes %ld\n",ms.closes);
-    alarm(0);
+    vc_watch(0);
     free(ops); free(file); free(line); ref_free();
   }
   return 0;
